@@ -193,7 +193,8 @@ class ReactionSystem(object):
                 irrev_rxns.extend(r.as_reactions())
             except AttributeError:
                 irrev_rxns.append(r)
-        irrev_rsys = ReactionSystem(irrev_rxns, self.substances, **kwargs)
+        # a copy: the constructor may extend the mapping (missing_substances_from_keys)
+        irrev_rsys = ReactionSystem(irrev_rxns, OrderedDict(self.substances), **kwargs)
         all_r = irrev_rsys.all_reac_stoichs()
         all_p = irrev_rsys.all_prod_stoichs()
         if np.any(all_r < 0) or np.any(all_p < 0):
